@@ -48,6 +48,18 @@ Streams:
              / ON) at every key position of the small documents, and added to
              every mapping: outside the model's document type, Python-side part
              of the monitor only (never Internal; accepted => the text's steps)
+  cli        a sample of the documents above (every corpus witness, accepted
+             ones inside the staging hygiene domain, rejected ones round-robin
+             over every kind of diagnostic seen: exception type x phase x message
+             stem) written to disk and run through the REAL command line in a
+             sub-process: `maestro run -y -fg --dry -o OUT spec.yaml` via
+             harness/e2e_launcher.py (maestrowf.maestro.main, time.sleep
+             stubbed).  Outcome from the process: A = exit 0 and the study was
+             staged; D = non-zero exit and every traceback on stderr is a
+             ValidationError / ValueError / bare Exception (or none at all);
+             I = a traceback of any other exception type.  Compared with the
+             model's class (= the library's class, the case having passed the
+             correspondence); I where the model says Diag = VIOLATION.
   enums      every priority string of the schema (and others) through the real
              StepPriority.from_str and FluxInterface_0490.get_flux_urgency;
              numbers n/d in [0,1] through the numeric branch
@@ -1293,6 +1305,149 @@ def raw_text_case(ck, impl, tag, text):
     return ok
 
 
+# ----------------------------------------------------------------------------
+# the command-line layer
+# ----------------------------------------------------------------------------
+CLI_DIR = os.path.join(common.WORK, "c13_cli")
+LAUNCHER = os.path.join(common.VERIF, "harness", "e2e_launcher.py")
+CLI_CLEAN = ("ValidationError", "ValueError", "Exception")
+
+
+def cli_tracebacks(text):
+    """exception type names of every traceback block in the process output"""
+    names = []
+    lines = text.split("\n")
+    i = 0
+    while i < len(lines):
+        if lines[i].startswith("Traceback (most recent call last):"):
+            j = i + 1
+            while j < len(lines) and (lines[j][:1] in (" ", "\t") or not lines[j].strip()):
+                j += 1
+            if j < len(lines):
+                head = lines[j].split(":", 1)[0].strip()
+                names.append(head.split(".")[-1] if head else "?")
+            else:
+                names.append("?")
+            i = j
+        i += 1
+    return names
+
+
+def cli_run(k, text):
+    """-> (class, detail): the real `maestro run` on the YAML text"""
+    import subprocess
+    d = os.path.join(CLI_DIR, "r%d" % k)
+    shutil.rmtree(d, ignore_errors=True)
+    os.makedirs(d)
+    spec = os.path.join(d, "spec.yaml")
+    with open(spec, "w", encoding="utf-8") as f:
+        f.write(text + "\n")
+    out = os.path.join(d, "out")
+    env = dict(os.environ)
+    env["PYTHONPATH"] = common.REPO
+    env["E2E_MAX_POLLS"] = "200"
+    for v in ("E2E_SCRIPTED", "E2E_MARK_LOG", "E2E_POLL_SLEEP", "E2E_STUDY_DIR", "E2E_SNAP_DIR"):
+        env.pop(v, None)
+    try:
+        p = subprocess.run([sys.executable, LAUNCHER, "maestro", "run", "-y", "-fg", "--dry", "-o", out, spec],
+                           cwd=d, env=env, stdout=subprocess.PIPE, stderr=subprocess.PIPE, timeout=300,
+                           text=True, errors="replace")
+        rc, so, se = p.returncode, p.stdout, p.stderr
+    except subprocess.TimeoutExpired:
+        shutil.rmtree(d, ignore_errors=True)
+        return "T", "timeout"
+    staged = os.path.isdir(out) and any(fn.endswith(".pkl") for fn in os.listdir(out))
+    tbs = cli_tracebacks(se + "\n" + so)
+    foreign = [n for n in tbs if n not in CLI_CLEAN]
+    tail = " | ".join([l for l in se.strip().split("\n") if l.strip()][-2:])[-300:]
+    shutil.rmtree(d, ignore_errors=True)
+    if foreign:
+        return "I", "exit %d, traceback of %s: %s" % (rc, ",".join(foreign), tail)
+    if rc == 0:
+        return ("A", "exit 0, staged") if staged else ("A?", "exit 0 but no study was staged: " + tail)
+    return "D", "exit %d%s: %s" % (rc, (", traceback of " + ",".join(tbs)) if tbs else "", tail)
+
+
+def cli_bucket(detail):
+    import re
+    m = re.match(r"(\w+) in (\w+): (.*)", detail or "")
+    if not m:
+        return ("?",)
+    words = re.sub(r"'[^']*'|\d+", "_", m.group(3)).split()
+    return (m.group(1), m.group(2), " ".join(words[:4]))
+
+
+def cli_stream(ck, impl, recs, bad, corpus):
+    """run a sample through the real command line and compare classes"""
+    quick = ck.tier != "thorough"
+    rng = random.Random(ck.seed + 13)
+    badset = set(bad)
+    jobs = []        # (tag, text, expected class or None, case json)
+    elig = [i for i, r in enumerate(recs) if r["cmp"] and i not in badset]
+    # every corpus witness the model can express
+    for i in elig:
+        if recs[i]["tag"].startswith("corpus:"):
+            jobs.append(i)
+    chosen = set(jobs)
+    acc = [i for i in elig if recs[i]["obs"][0] == "A" and i not in chosen and stage_hygiene(loaded(recs[i]["doc"]))
+           and plain_batch(recs[i]["doc"])]
+    rng.shuffle(acc)
+    n_acc = 8 if quick else 120
+    jobs += acc[:n_acc]
+    buckets = collections.OrderedDict()
+    for i in elig:
+        if recs[i]["obs"][0] == "D" and i not in chosen:
+            buckets.setdefault(cli_bucket(recs[i]["detail"]), []).append(i)
+    for b in buckets.values():
+        rng.shuffle(b)
+    n_rej = 22 if quick else 460
+    order = list(buckets.values())
+    while n_rej > 0 and any(order):
+        for b in order:
+            if b and n_rej > 0:
+                jobs.append(b.pop())
+                n_rej -= 1
+    work = [(recs[i]["tag"], to_yaml(recs[i]["doc"]), recs[i]["obs"][0], i) for i in jobs]
+    # raw texts (documents outside the model's type): never an internal error
+    for t, d, j in corpus:
+        if d is None and "yaml_text" in j:
+            work.append((t, j["yaml_text"], None, None))
+    from concurrent.futures import ThreadPoolExecutor
+    shutil.rmtree(CLI_DIR, ignore_errors=True)
+    os.makedirs(CLI_DIR, exist_ok=True)
+    with ThreadPoolExecutor(max_workers=common.NCPU) as ex:
+        res = list(ex.map(lambda kw: cli_run(kw[0], kw[1][1]), enumerate(work)))
+    shutil.rmtree(CLI_DIR, ignore_errors=True)
+    hist = collections.Counter()
+    for (tag, text, want, i), (got, detail) in zip(work, res):
+        ck.count(("cli", text), nontrivial=True)
+        hist["%s->%s" % (want or "raw", got)] += 1
+        cj = {"property": PID, "tag": "cli:" + tag, "yaml": text, "cli": {"class": got, "detail": detail},
+              "library_class": want}
+        if i is not None:
+            cj["doc"] = to_json(recs[i]["doc"])
+        else:
+            cj["yaml_text"] = text
+        if got == "I":
+            ck.violation("cli:%s: `maestro run` ended in an internal error (%s) on a document the model %s"
+                         % (tag, detail, {"D": "rejects with a diagnostic", "A": "accepts"}.get(want, "never crashes on")),
+                         cj)
+        elif got == "T":
+            ck.mismatch("cli:%s: `maestro run` timed out" % tag, cj, detail)
+        elif want is not None and got != want:
+            ck.mismatch("cli:%s: command line %s (%s) but library and model %s" % (tag, got, detail, want), cj, detail)
+    ck.cov["cli_runs"] = len(work)
+    ck.cov["cli_outcomes_expected_to_observed"] = dict(sorted(hist.items()))
+    ck.cov["cli_rejection_kinds_sampled"] = len(buckets)
+
+
+def plain_batch(doc):
+    """the batch block is not verified by the code and not modelled: accepted
+    documents go to the command line only without one or with a local one"""
+    b = doc.get("batch") if isinstance(doc, Obj) else None
+    return b is None or (isinstance(b, Obj) and b.keys() in ([], ["type"]) and b.get("type", "local") == "local")
+
+
 def build_cases(ck, impl, rng, tier):
     quick = tier != "thorough"
     prios = priority_enum(impl)
@@ -1479,6 +1634,9 @@ def run(ck):
     judge(ck, recs, lits, bad, errs)
     tm["judge"] = round(time.time() - t1, 1)
     t1 = time.time()
+    cli_stream(ck, impl, recs, bad, corpus)
+    tm["cli"] = round(time.time() - t1, 1)
+    t1 = time.time()
     # the interpreter against jsonschema on random values
     n_int = 400 if ck.tier != "thorough" else 6000
     ic = interp_cases(rng, impl, n_int)
@@ -1550,12 +1708,22 @@ def replay(ck, path):
     j = json.load(open(path))
     cj = j.get("case") or j
     impl = Impl()
+    cli_rc = 0
+    if str(cj.get("tag", "")).startswith("cli:") and (cj.get("yaml") or cj.get("yaml_text")):
+        os.makedirs(CLI_DIR, exist_ok=True)
+        got, detail = cli_run(0, cj.get("yaml") or cj.get("yaml_text"))
+        print("command line  :", got, detail)
+        if got == "I" or (cj.get("library_class") and got != cj["library_class"]):
+            cli_rc = 1
+            print("verdict (cli) : FAIL")
+        else:
+            print("verdict (cli) : ok")
     if "yaml_text" in cj and "doc" not in cj:
         ok = raw_text_case(ck, impl, cj.get("tag", "replay"), cj["yaml_text"])
         print("document      :", cj["yaml_text"][:2000])
         print("implementation:", impl.run(cj["yaml_text"], False))
         print("verdict       :", "ok" if ok else "FAIL")
-        return 0 if ok else 1
+        return 0 if ok and not cli_rc else 1
     doc = from_json(cj["doc"])
     obs, detail, bits = observe(impl, doc)
     lit = "(%s, %s, (%s, %s))" % (g_jv(doc), g_result(obs), common.g_list([common.g_bool(b) for b in bits]),
@@ -1572,4 +1740,4 @@ def replay(ck, path):
     print(explain(lit))
     bad, errs = common.coq_failing("c13_replay", HEADER, "jv * result * (list bool * bool)", "case_ok", [lit])
     print("verdict       :", "FAIL" if bad or errs else "ok")
-    return 1 if bad or errs else 0
+    return 1 if bad or errs or cli_rc else 0
